@@ -18,7 +18,7 @@ UNIT = dict(
         ]),
         "Circuit::cleanup_old_records": dict(rules=[
             ("loops", {0: """invariant
-                live(self.call_records@, now.t as nat, window_duration.nanos as nat) == live(old(self).call_records@, now.t as nat, window_duration.nanos as nat),
+                live(self.call_records@, now.t as nat, window_duration.nanos as nat) == live(old(self).call_records@, now.t as nat, window_duration.nanos as nat),   // #no_record_still_inside_the_window_is_evicted [C04,C09]
                 self.state == old(self).state && self.state_atomic == old(self).state_atomic && self.last_state_change == old(self).last_state_change
                   && self.failure_count == old(self).failure_count && self.success_count == old(self).success_count
                   && self.total_count == old(self).total_count && self.slow_call_count == old(self).slow_call_count,
